@@ -170,6 +170,11 @@ class Translator:
                                 "np.full", "np.full_like") and \
                 all(k.arg == "dtype" and (dotted(k.value) or ast.unparse(k.value)) in FLOAT_DT for k in c.keywords):
             c = ast.Call(func=c.func, args=c.args, keywords=[])     # a real floating dtype does not change the formula
+        if d in self.helpers:
+            for n_ in ast.walk(self.helpers[d].node):
+                if isinstance(n_, (ast.Global, ast.Nonlocal)):
+                    raise StateDependence(f"{self.f.name} calls {d}(), which rebinds module-level state (`{short(n_)}`): "
+                                          f"its value depends on the calls made before, not on x alone")
         if c.keywords and not (d == "np.divide" and {k.arg for k in c.keywords} <= {"out", "where"}):
             self.err(c, "keyword arguments")
         if d == "np.concatenate" and len(c.args) == 1 and isinstance(c.args[0], (ast.Tuple, ast.List)) and not c.keywords:
@@ -492,6 +497,14 @@ def rule_ad(ctx: Ctx) -> List[Ob]:
                           f"benchmarks.{nme}", nme, False, f"{nme} has no (function, gradient) partner in benchmarks.py"))
     N = _nmax()
     helpers = {h.name: h for h in ctx.repo.funcs_in("benchmarks") if h.parent is None}
+    # helpers imported from other modules of the package (from lbfgsb.utils import ..): same treatment
+    bm = ctx.repo.modules["benchmarks"]
+    for st_ in bm.tree.body:
+        if isinstance(st_, ast.ImportFrom) and (st_.module or "").split(".")[0] in ("lbfgsb", "") or (isinstance(st_, ast.ImportFrom) and st_.level):
+            for al in st_.names:
+                for q_, h in ctx.repo.funcs.items():
+                    if h.parent is None and h.name == al.name and q_.split(".")[0] == (st_.module or "").split(".")[-1]:
+                        helpers.setdefault(al.asname or al.name, h)
 
     eqg: Dict[Tuple[str, int], list] = {}
 
